@@ -32,7 +32,7 @@ class N(object):
     pos      (start_line, start_col, end_line, end_col, start_off, end_off) once rendered
     level    binding level for parenthesisation (expressions)
     '''
-    __slots__ = ('cls', 'fields', 'kw', 'kids', 'emit', 'pos', 'level', 'checked', 'alt_cls')
+    __slots__ = ('cls', 'fields', 'kw', 'kids', 'emit', 'pos', 'level', 'checked', 'alt_cls', 'sem')
 
     def __init__(self, cls, fields=None, kids=None, emit=None, kw=(), level=ATOM_LEVEL, checked=True):
         self.cls = cls
@@ -44,6 +44,7 @@ class N(object):
         self.level = level
         self.checked = checked      # position checked (statement / expression nodes)
         self.alt_cls = None
+        self.sem = None
 
     def walk(self):
         yield self
